@@ -137,6 +137,86 @@ Theorem C16_first_callable_signature :
 Proof. exact call_from_body. Qed.
 Print Assumptions C16_first_callable_signature.
 
+(* ---- looking at a built function between calls --------------------------------------------------------------- *)
+
+(* The state reachable from a resolved function (the builders it was resolved from, whose lists of resolved types the
+   parameter tuples share, and the table of dispatchers) after ANY sequence of the read-only accessors - Dispatchers,
+   Lambda.Parameters, Signature / PType, ParameterNames, the tuple's Types / Size, BlockType, String / ToString / Accept /
+   Generic / Equals of all of them, and Resolve asked once more of the same builder - is the state before.
+   `fn_coherent`: the table is what createDispatch makes of the builders, true of every function that has just been
+   resolved (C16_resolved_function_is_coherent). *)
+Theorem C16_introspection_is_pure :
+  forall (ty bty : Type) (accs : list accessor) (st : fstate ty bty),
+    fn_coherent st -> fst (run_accessors st accs) = st.
+Proof. exact run_accessors_pure. Qed.
+Print Assumptions C16_introspection_is_pure.
+
+Theorem C16_resolved_function_is_coherent :
+  forall (ty bty : Type) (ss : list (bstate ty bty)) (st : fstate ty bty),
+    resolved_state ss = Some st -> fn_coherent st /\ f_builders st = ss.
+Proof. exact resolved_state_coherent. Qed.
+Print Assumptions C16_resolved_function_is_coherent.
+
+(* so every call - any argument list, any block - does after the accessors what it did before them *)
+Theorem C16_calls_unchanged_by_introspection :
+  forall (ty val bty blk : Type) (inst : ty -> val -> bool) (binst : bty -> option blk -> bool)
+         (st : fstate ty bty) (accs : list accessor) (vs : list val) (b : option blk),
+    fn_coherent st ->
+    call inst binst (f_table (fst (run_accessors st accs))) vs b = call inst binst (f_table st) vs b.
+Proof. exact introspection_pure. Qed.
+Print Assumptions C16_calls_unchanged_by_introspection.
+
+(* and that is: the body of the first dispatch whose DECLARATION the call satisfies, else the argument error - for every
+   function built from dispatch programs, after every sequence of accessors *)
+Theorem C16_dispatch_after_introspection :
+  forall (ty val bty blk : Type) (inst : ty -> val -> bool) (binst : bty -> option blk -> bool)
+         (dss : list (list (bop ty bty))) (ss : list (bstate ty bty)) (ds : list (dispatch ty bty))
+         (accs : list accessor) (vs : list val) (b : option blk),
+    run_all dss 0 = inr ss -> fn_built dss ds -> Z.of_nat (length vs) < max_int64 ->
+    call inst binst (f_table (fst (run_accessors (mkF ss ds) accs))) vs b =
+    match first_index (decl_matches inst binst vs b) dss with Some i => RBody i | None => RArgError end.
+Proof. exact dispatch_after_introspection. Qed.
+Print Assumptions C16_dispatch_after_introspection.
+
+(* asking again gives the same answers *)
+Theorem C16_asking_again_same_answers :
+  forall (ty bty : Type) (a1 a2 : list accessor) (st : fstate ty bty),
+    fn_coherent st ->
+    snd (run_accessors st (a1 ++ a2)) = snd (run_accessors st a1) ++ snd (run_accessors st a2).
+Proof. exact run_accessors_app. Qed.
+Print Assumptions C16_asking_again_same_answers.
+
+(* what Lambda.Parameters() answers for a dispatch IS its declaration: one px.Parameter per declared parameter, of the
+   declared type (an optional parameter keeps its declared type: it is not turned into Optional[T]), captures-rest
+   exactly on a repeated one *)
+Theorem C16_parameters_describe_declaration :
+  forall (ty bty : Type) (ops : list (bop ty bty)) (d : dispatch ty bty),
+    build ops = Ok d -> Z.of_nat (length ops) < max_int64 ->
+    parameters_of_sig (d_sig d) = describe (params_of ops).
+Proof. exact parameters_describe_declaration. Qed.
+Print Assumptions C16_parameters_describe_declaration.
+
+(* pair(Integer[0,5], String?) | rest(String, Boolean?, Integer[0,9]...): undef at an optional position is refused
+   before and after Parameters() / Types() / Resolve were asked; Parameters() of `rest` *)
+Definition ex_insp_dss : list (list (bop pty N)) :=
+  [ [OParam (PInteger 0 5); OOptParam (PString 0 max_int64); OFunction];
+    [OParam (PString 0 max_int64); OOptParam PBoolean; ORepParam (PInteger 0 9); OFunction] ].
+Definition ex_insp_calls : list (list pval * option N) :=
+  [ ([VInt 1], None); ([VInt 1; VUndef], None); ([VStr [97%N]; VUndef; VInt 1], None); ([VStr [97%N]; VBool true; VInt 1; VInt 2], None) ].
+
+Example C16_introspection_nonvacuous :
+  match insp_state [] ex_insp_dss with
+  | Some st =>
+      let '(st1, os) := run_accessors st [AParameters 1; ATypes 0; AResolve; ASize 1; AParameters 0] in
+      (calls_on [] (fn_look ctx0 ([], ex_insp_dss)) st ex_insp_calls, calls_on [] (fn_look ctx0 ([], ex_insp_dss)) st1 ex_insp_calls, os)
+  | None => ([], [], [])
+  end
+  = ( [RBody 0; RArgError; RArgError; RBody 1], [RBody 0; RArgError; RArgError; RBody 1],
+      [ OParams [(PString 0 max_int64, false); (PBoolean, false); (PInteger 0 9, true)];
+        OTypes [PInteger 0 5; PString 0 max_int64]; OResolved true; OSize 1 max_int64;
+        OParams [(PInteger 0 5, false); (PString 0 max_int64, false)] ] ).
+Proof. vm_compute. reflexivity. Qed.
+
 (* ---- histories in one context ----------------------------------------------------------------------------- *)
 
 (* pxContext.DoWithLoader puts the loader back however doer ends (normal return or panic). *)
